@@ -165,6 +165,8 @@ func (f *function) diffEnv() (bool, string, diff.ValueDiff, error) {
 
 	var reason string
 	switch len(reasons) {
+	case 0:
+		reason = "environment"
 	case 1:
 		reason = reasons[0]
 	case 2:
